@@ -7,7 +7,8 @@
          /repo/src/client/mod.rs      set_client_to_connecting, verify_client_connected,
                                       set_client_to_disconnected
          /repo/src/client/receiver.rs Message::PromoteToHost, Message::NewHost
-         /repo/src/networking/mod.rs  ONE RenetClient and ONE RenetServer object per App, for ever;
+         /repo/src/networking/mod.rs  ONE RenetServer object per App, for ever; ONE RenetClient object
+                                      until a NewHost handler inserts a new one (the repair);
                                       create_client / create_server make transports only.
    Frame-level model: theories/Sync/Model.v  n_srv_transport, n_cli_transport, n_clients, n_status,
          n_sticky_disconnect, t_promo, s_server, s_client, promote_reader, client_received /
@@ -25,24 +26,25 @@
        ServerEvents of that frame, whereas ClientState needs a frame boundary to change.
 
    renet 0.0.16 facts used (read in the sources of renet / renetcode):
-     - RenetClient status Disconnected is absorbing: disconnect(), disconnect_due_to_transport()
-       (kick packet from the server, netcode time-out) all end there; set_connecting/set_connected
-       "do nothing if the client is disconnected. A disconnected client must be reconstructed".
-       bevy_sync never reconstructs the RenetClient.  => field [sticky].
+     - RenetClient status Disconnected is absorbing FOR THE OBJECT: disconnect(),
+       disconnect_due_to_transport() (kick packet from the server, netcode time-out) all end there;
+       set_connecting/set_connected "do nothing if the client is disconnected. A disconnected client
+       must be reconstructed".  => field [sticky] (of the CURRENT RenetClient object).
+       REPAIRED CODE (this file): both handlers of NewHost -- client/receiver.rs and the deferred
+       closure of server/receiver.rs -- now insert RenetClient::new(..) together with the new client
+       transport, i.e. [sticky := false; link_up := false].  Nothing else reconstructs a RenetClient.
      - RenetServer::disconnect(c): c leaves clients_id()/connected_clients() at once, the
        ClientDisconnected event is produced by the next update.
      - a server learns that a client went away by itself only from the disconnect packet or by
        time-out  => nondeterministic event [ETimeout]; the client transport that is dropped in
        the same frame in which RenetClient::disconnect() was called never sends that packet.
 
-   Replayed on the real code with the protocol harness (2 and 3 processes, 2026-09-30):
-     - "PEERS 3; setup x3; ROUND 10; OP 0 promote 1; ROUND 30" ends in the state of [s8_as_observed]
-       (PromotionProofs.v): old host still hosting, flag consumed by verify_client_connected (no
-       RequestInitialSync from 0), peer 2 ClientState Connected / RenetClient disconnected / flag set;
-     - "PEERS 2; setup x2; ROUND 8; OP 0 promote 1; ROUND 20; OP 1 promote 0; ROUND 30": the first
-       hand-over succeeds and leaves peer 1's RenetClient `disconnected` (the kick); the second one ends
-       exactly in [chain_broken]: 0 hosts nobody with its flag stuck and a stale client transport,
-       1 has closed its server and stays in ClientState::Connecting for ever.
+   History (the code BEFORE the repair, replayed with the protocol harness, 2026-09-30): S8 = with two
+   or more clients the other clients were stranded (new transport paired with the disconnected
+   RenetClient); S9 = a second promotion (promote 1, then promote 0 back) broke because the kick had
+   killed peer 1's RenetClient for ever.  What is left of S8 after the repair is proved in
+   PromotionProofs.v: the old host may keep hosting next to the new one, and the flag of the other
+   clients stays set.
 
    Everything is executable. *)
 From Coq Require Import NArith List Lia.
@@ -78,7 +80,7 @@ Record ppeer := PPeer {
   cli_added : bool;                (* resource_added::<NetcodeClientTransport> not yet evaluated *)
   cli_removed : bool;              (* resource_removed::<NetcodeClientTransport> not yet evaluated *)
   link_up : bool;                  (* RenetClient::is_connected() *)
-  sticky : bool;                   (* the RenetClient object is Disconnected for ever *)
+  sticky : bool;                   (* the current RenetClient object is Disconnected (for ever: only a NEW object helps) *)
   (* tracker *)
   flag : bool                      (* SyncTrackerRes::host_promotion_in_progress *)
 }.
@@ -176,11 +178,13 @@ Definition step (s : pstate) (e : pevent) : option pstate :=
                                        <| srv_added := if hosting y then srv_added y else true |>
                                        <| flag := true |>))
                 | NewHost h' =>
-                    (* client.disconnect(); cmd.remove_resource::<NetcodeClientTransport>();
-                       cmd.insert_resource(create_client(h')); flag := true.  Removal and insertion
-                       happen in ONE flush: resource_removed never fires, ClientState stays as it is;
-                       the new transport is paired with the disconnected RenetClient. *)
-                    Some (drop_link (setp s1 c (y <| sticky := true |> <| link_up := false |>
+                    (* REPAIRED (S9/S8): client.disconnect(); cmd.remove_resource::<NetcodeClientTransport>();
+                       cmd.insert_resource(RenetClient::new(..)); cmd.insert_resource(create_client(h'));
+                       flag := true.  Removal and insertion happen in ONE flush: resource_removed never
+                       fires, ClientState stays as it is; the new transport is paired with a FRESH
+                       RenetClient (sticky := false, not connected).  No disconnect packet reaches the old
+                       host (the old transport is dropped in the same flush): it learns by ETimeout. *)
+                    Some (drop_link (setp s1 c (y <| sticky := false |> <| link_up := false |>
                                                   <| client_of := Some h' |> <| cli_added := true |>
                                                   <| flag := true |>)) c h)
                 | ReqInit => Some s1
@@ -202,13 +206,14 @@ Definition step (s : pstate) (e : pevent) : option pstate :=
                 | ReqInit => Some s1      (* answers with a snapshot: not a role change *)
                 | NewHost h' =>
                     (* server.disconnect(c); repeat_except_for_client(c, NewHost h'); deferred:
-                       flag := true; insert_resource(create_client(h')) -- an insertion over an
-                       existing resource is not "added" (bevy_ecs ResourceData::insert) *)
+                       flag := true; REPAIRED: insert_resource(RenetClient::new(..)) -- a FRESH RenetClient
+                       (sticky := false, not connected) --; insert_resource(create_client(h')) -- an
+                       insertion over an existing resource is not "added" (bevy_ecs ResourceData::insert) *)
                     let others := without c (clients x) in
                     let x' := x <| clients := others |> <| srv_events := srv_events x ++ [(false, c)] |>
                                 <| flag := true |> <| client_of := Some h' |>
                                 <| cli_added := if client_of x then cli_added x else true |>
-                                <| link_up := false |> in
+                                <| link_up := false |> <| sticky := false |> in
                     Some (relay (drop_link (drop_link_of (setp s1 h x') h (client_of x)) c h) h others (NewHost h'))
                 end
             end
@@ -419,7 +424,8 @@ Definition handed_overb (s : pstate) (h c : peer) : bool :=
   | _, _ => false
   end.
 
-(* the S8 outcome for client c: ClientState Connected, a client transport, a dead RenetClient *)
+(* ClientState Connected, a client transport, a dead RenetClient, no server: such a peer can never
+   again handle a NewHost (needs a live link or a server), so its RenetClient is never replaced *)
 Definition stranded (x : ppeer) : Prop :=
   hosting x = false /\ sticky x = true /\ link_up x = false /\ cli_state x = CConnected /\
   is_Some (client_of x) /\ cli_removed x = false.
@@ -427,19 +433,21 @@ Global Instance stranded_dec x : Decision (stranded x). Proof. unfold stranded. 
 
 (* ---------- termination measure ------------------------------------------------------------------
    Every pending thing has a weight larger than the sum of what handling it can create.
-   n = number of peers (a NewHost received by a host is relayed to fewer than n clients). *)
+   n = number of peers (a NewHost received by a host is relayed to fewer than n clients).
+   After the repair a NewHost handler makes a FRESH RenetClient (weight 7: it will connect), so a
+   NewHost weighs 10 downstream and 10 + 10 n upstream. *)
 Definition w_link (x : ppeer) : nat :=
   match client_of x with
   | None => 0
   | Some _ => if link_up x then 1 else if sticky x then 0 else 7
   end.
 Definition w_peer (n : nat) (x : ppeer) : nat :=
-  (if srv_added x then 14 + 4 * n else 0) + (if srv_removed x then 1 else 0)
+  (if srv_added x then 11 + 10 * n else 0) + (if srv_removed x then 1 else 0)
   + 3 * length (clients x) + 2 * length (srv_events x)
   + w_link x + (if cli_added x then 3 else 0) + (if is_cconnecting (cli_state x) then 2 else 0)
   + (if cli_removed x then 1 else 0).
-Definition w_up (n : nat) (m : pmsg) : nat := match m with NewHost _ => 13 + 4 * n | _ => 1 end.
-Definition w_down (n : nat) (m : pmsg) : nat := match m with Promote => 15 + 4 * n | NewHost _ => 4 | ReqInit => 1 end.
+Definition w_up (n : nat) (m : pmsg) : nat := match m with NewHost _ => 10 + 10 * n | _ => 1 end.
+Definition w_down (n : nat) (m : pmsg) : nat := match m with Promote => 12 + 10 * n | NewHost _ => 10 | ReqInit => 1 end.
 Definition sum_list (l : list nat) : nat := foldr plus 0 l.
 Definition measure (s : pstate) : nat :=
   let n := length (map_to_list (ps s)) in
@@ -475,6 +483,48 @@ Definition checkb (good : pstate -> bool) (R : list pstate) : bool :=
                       end) (events_of s)
     && (negb (stableb s) || good s)) R.
 
+(* ---------- the same with a hash table (3 clients: 26425 states; the list version is quadratic) -----
+   [hkey] is an arbitrary function: soundness needs nothing about it (a bucket only ever holds
+   states that were put into it), a good spread only makes it fast. *)
+Definition b2n (b : bool) : N := if b then 1%N else 0%N.
+Definition hpeer (x : ppeer) : N :=
+  let bits := [hosting x; is_sconn (srv_state x); srv_added x; srv_removed x; is_cconn (cli_state x);
+               is_cconnecting (cli_state x); cli_added x; cli_removed x; link_up x; sticky x; flag x] in
+  let h := foldl (fun a b => 2 * a + b2n b)%N 1%N bits in
+  let h := (8 * h + match client_of x with None => 0 | Some t => 1 + t end)%N in
+  let h := foldl (fun a c => 8 * a + c + 1)%N h (clients x) in
+  foldl (fun a (e : bool * peer) => 16 * a + 2 * e.2 + b2n e.1 + 1)%N h (srv_events x).
+Definition hmsg (m : pmsg) : N := match m with Promote => 1%N | NewHost p => (3 + p)%N | ReqInit => 2%N end.
+Definition hchan (M : gmap (peer * peer) (list pmsg)) : N :=
+  foldl (fun a (kl : peer * peer * list pmsg) =>
+           foldl (fun a m => 8 * a + hmsg m)%N (64 * a + 8 * kl.1.1 + kl.1.2 + 1)%N kl.2) 1%N (map_to_list M).
+Definition hkey (s : pstate) : N :=
+  (foldl (fun a (kx : peer * ppeer) => a * 1048576 + hpeer kx.2 + a / 4096)%N 1%N (map_to_list (ps s)) * 65536
+   + hchan (up s) * 256 + hchan (down s))%N.
+
+Notation tbl := (gmap N (list pstate)) (only parsing).
+Definition tmem (s : pstate) (T : tbl) : bool := bool_decide (s ∈ default [] (T !! hkey s)).
+Definition tadd (s : pstate) (T : tbl) : tbl := <[hkey s := s :: default [] (T !! hkey s)]> T.
+
+Fixpoint explore_h (fuel : nat) (todo : list pstate) (T : tbl) (acc : list pstate) : option (list pstate) :=
+  match fuel with
+  | O => None
+  | S fuel =>
+      match todo with
+      | [] => Some acc
+      | s :: todo => if tmem s T then explore_h fuel todo T acc
+                     else explore_h fuel (succs s ++ todo) (tadd s T) (s :: acc)
+      end
+  end.
+Definition checkb_h (good : pstate -> bool) (R : list pstate) : bool :=
+  let T := foldr tadd ∅ R in
+  forallb (fun s =>
+    forallb (fun e => match step s e with
+                      | None => true
+                      | Some s' => tmem s' T && (measure s' <? measure s)
+                      end) (events_of s)
+    && (negb (stableb s) || good s)) R.
+
 (* ---------- runs of the protocol after one promotion request -------------------------------------- *)
 
 (* the application of the host asks for the promotion of k *)
@@ -488,27 +538,6 @@ Definition epeers (e : pevent) : list peer :=
   | ESrvUp p | ESrvDown p | ECliConnecting p | EVerify p | ECliDown p | ENotify p | EConnect p | ELinkDown p => [p]
   end.
 
-(* what a promotion of [k] (a client of [h]) ends in when the RenetClient of [h] is dead:
-   k hosts nobody and waits for its first ClientConnected for ever (flag stuck, stale client
-   transport kept), h has closed its server and sits in ClientState::Connecting for ever *)
-Definition chain_broken (s : pstate) (h k : peer) : Prop :=
-  (exists x y, ps s = {[ k := x; h := y ]} /\ h <> k /\
-     hosting x = true /\ srv_state x = SConnected /\ clients x = [] /\ flag x = true /\
-     client_of x = Some h /\ link_up x = false /\
-     hosting y = false /\ srv_state y = SDisconnected /\ client_of y = Some k /\ cli_state y = CConnecting /\
-     link_up y = false /\ sticky y = true /\ flag y = false) /\ no_traffic s.
-Definition chain_brokenb (s : pstate) (h k : peer) : bool :=
-  match ps s !! k, ps s !! h with
-  | Some x, Some y =>
-      bool_decide (ps s = {[ k := x; h := y ]}) && bool_decide (h <> k) &&
-      bool_decide (hosting x = true /\ srv_state x = SConnected /\ clients x = [] /\ flag x = true /\
-                   client_of x = Some h /\ link_up x = false /\
-                   hosting y = false /\ srv_state y = SDisconnected /\ client_of y = Some k /\ cli_state y = CConnecting /\
-                   link_up y = false /\ sticky y = true /\ flag y = false)
-      && bool_decide (up s = ∅) && bool_decide (down s = ∅)
-  | _, _ => false
-  end.
-
 (* the goal of a promotion of k: one host, everybody else its connected client *)
 Definition session_ok (s : pstate) (k : peer) : Prop :=
   hosts s = [k] /\
@@ -517,30 +546,56 @@ Definition session_ok (s : pstate) (k : peer) : Prop :=
     hosting x = false /\ srv_state x = SDisconnected) (ps s).
 Global Instance session_ok_dec s k : Decision (session_ok s k).
 Proof. unfold session_ok. apply _. Defined.
-(* full statement of C07 for n clients (true for n = 1, refuted for n = 2) *)
+(* full statement of C07 for n clients (true for n = 1; for n >= 2 still false after the repair: the
+   flag of the other clients stays set, see C07_never_with_more_clients) *)
 Definition C07_statement (n : nat) (k : peer) : Prop :=
   forall tr s, all_internal tr -> run (promoted n k) tr = Some s -> stable s -> session_ok s k.
 
-(* full statement for a chain of two promotions in a two-peer session (refuted: see
-   C07_chain_of_promotions for what does hold) *)
+(* the same about the ROLES only (nothing said about the flag).  Still false for n >= 2: the old host
+   may keep its server for ever (C07_roles_refuted_two_clients) *)
+Definition session_ok_roles (s : pstate) (k : peer) : Prop :=
+  hosts s = [k] /\
+  map_Forall (fun p x => p <> k ->
+    client_of x = Some k /\ link_up x = true /\ cli_state x = CConnected /\
+    hosting x = false /\ srv_state x = SDisconnected) (ps s).
+Global Instance session_ok_roles_dec s k : Decision (session_ok_roles s k).
+Proof. unfold session_ok_roles. apply _. Defined.
+Definition C07_roles_statement (n : nat) (k : peer) : Prop :=
+  forall tr s, all_internal tr -> run (promoted n k) tr = Some s -> stable s -> session_ok_roles s k.
+
+(* full statement for a chain of two promotions in a two-peer session (true after the repair:
+   PromotionProofs.C07_chain) *)
 Definition C07_chain_statement : Prop :=
   forall tr F, all_internal tr -> run (promoted 1 1%N) tr = Some F -> stable F ->
   forall tr' s, all_internal tr' -> run (promote_in F 1%N 0%N) tr' = Some s -> stable s -> handed_over s 0%N 1%N.
 
-(* S8, as seen in a 3-peer session after the promotion of 1: 0 has moved over to 1, 2 is stranded *)
-Definition s8_outcome (s : pstate) : Prop :=
-  exists x0 x1 x2, ps s !! (0%N : peer) = Some x0 /\ ps s !! (1%N : peer) = Some x1 /\ ps s !! (2%N : peer) = Some x2 /\
-    stranded x2 /\ flag x2 = true /\ client_of x2 = Some 1%N /\
-    hosting x1 = true /\ clients x1 = [0%N] /\ flag x1 = false /\
-    client_of x0 = Some 1%N /\ link_up x0 = true /\ cli_state x0 = CConnected /\ flag x0 = false /\ clients x0 = [].
-Definition s8_outcomeb (s : pstate) : bool :=
-  match ps s !! (0%N : peer), ps s !! (1%N : peer), ps s !! (2%N : peer) with
-  | Some x0, Some x1, Some x2 =>
-      bool_decide (stranded x2 /\ flag x2 = true /\ client_of x2 = Some 1%N /\
-        hosting x1 = true /\ clients x1 = [0%N] /\ flag x1 = false /\
-        client_of x0 = Some 1%N /\ link_up x0 = true /\ cli_state x0 = CConnected /\ flag x0 = false /\ clients x0 = [])
-  | _, _, _ => false
-  end.
+(* x is a connected client of k with a live RenetClient and nothing pending; no server side left
+   over except possibly the server itself; the flag is not constrained *)
+Definition joined (x : ppeer) (k : peer) : Prop :=
+  srv_added x = false /\ srv_removed x = false /\ clients x = [] /\ srv_events x = [] /\
+  client_of x = Some k /\ cli_state x = CConnected /\ cli_added x = false /\ cli_removed x = false /\
+  link_up x = true /\ sticky x = false.
+Global Instance joined_dec x k : Decision (joined x k). Proof. unfold joined. apply _. Defined.
+
+(* what a promotion of k by host 0 ends in after the repair, in a session of any size:
+   - nothing in flight;
+   - k is nothing but a host, and every other peer is in its client table;
+   - every other peer is a connected client of k with a live link;
+   - the old host 0 has either closed its server or KEEPS it (hosting nobody) -- flag consumed;
+   - the other clients have no server, and their flag host_promotion_in_progress is still set *)
+Definition old_host_end (x : ppeer) : Prop :=
+  flag x = false /\ ((hosting x = true /\ srv_state x = SConnected) \/ (hosting x = false /\ srv_state x = SDisconnected)).
+Definition other_client_end (x : ppeer) : Prop :=
+  hosting x = false /\ srv_state x = SDisconnected /\ flag x = true.
+Definition repaired_outcome (s : pstate) (k : peer) : Prop :=
+  up s = ∅ /\ down s = ∅ /\
+  match ps s !! k with
+  | Some xk => pure_host xk (clients xk) /\ map_Forall (fun p _ => p <> k -> p ∈ clients xk) (ps s)
+  | None => False
+  end /\
+  map_Forall (fun p x => p <> k -> joined x k /\ (p = host -> old_host_end x) /\ (p <> host -> other_client_end x)) (ps s).
+Global Instance repaired_outcome_dec s k : Decision (repaired_outcome s k).
+Proof. unfold repaired_outcome, old_host_end, other_client_end. destruct (ps s !! k); apply _. Defined.
 
 (* a field of a peer, with a default for peers that do not exist *)
 Definition pget {A} (f : ppeer -> A) (d : A) (s : pstate) (p : peer) : A :=
@@ -585,6 +640,15 @@ Definition untouched (s : pstate) (c : peer) (x : ppeer) : Prop :=
   cli_removed x = false /\
   exists x0, ps s !! host = Some x0 /\ hosting x0 = true /\ c ∈ clients x0.
 
+(* c has obeyed NewHost(k): a client transport towards k with a RenetClient that is alive and stays
+   alive (k hosts, and a linked c is in k's client table: no kick, no time-out); ClientState never
+   left Connected, so verify_client_connected never runs and the flag stays set *)
+Definition moved (s : pstate) (k c : peer) (x : ppeer) : Prop :=
+  hosting x = false /\ client_of x = Some k /\ cli_state x = CConnected /\ cli_removed x = false /\
+  sticky x = false /\ flag x = true /\
+  pget hosting false s k = true /\
+  (link_up x = true -> c ∈ pget clients [] s k).
+
 Definition spi (k : peer) (s : pstate) : Prop :=
   k <> host /\
   (* at most two peers host: the old host and the promoted peer *)
@@ -593,18 +657,23 @@ Definition spi (k : peer) (s : pstate) : Prop :=
   (* the only client transports: k -> 0 (old), 0 -> k (new), others -> 0 or k *)
   (forall x h, ps s !! k = Some x -> client_of x = Some h -> h = host) /\
   (forall x h, ps s !! host = Some x -> client_of x = Some h -> h = k) /\
-  (* traffic: only the old host sends downstream: NewHost(k) to the other clients, and the one
-     Promote to k, which is in flight exactly as long as k has no server transport *)
+  (* traffic: only the old host sends downstream: NewHost(k) to the other clients (k hosts by then),
+     and the one Promote to k, which is in flight exactly as long as k has no server transport *)
   (forall h c m, m ∈ chan (down s) h c ->
-     h = host /\ ((m = NewHost k /\ c <> k /\ c <> host) \/
+     h = host /\ ((m = NewHost k /\ c <> k /\ c <> host /\ pget hosting false s k = true) \/
                   (m = Promote /\ c = k /\ chan (down s) host k = [Promote] /\ pget hosting true s k = false))) /\
-  (forall c h m, m ∈ chan (up s) c h -> m = ReqInit \/ (m = NewHost k /\ c = k /\ h = host)) /\
-  (* S8 for every n: a client other than k is either still an ordinary client of 0, or stranded *)
-  (forall c x, ps s !! c = Some x -> c <> host -> c <> k ->
-     untouched s c x \/ (stranded x /\ client_of x = Some k /\ flag x = true)) /\
-  (* the promoted peer: window while its flag is set; nobody but the old host ever joins it *)
-  (forall x, ps s !! k = Some x -> hosting x = true -> window x) /\
-  (forall x c, ps s !! k = Some x -> c ∈ clients x -> c = host).
+  (forall c h m, m ∈ chan (up s) c h ->
+     m = ReqInit \/ (m = NewHost k /\ c = k /\ h = host /\ pget hosting false s k = true)) /\
+  (* a client other than k is either still an ordinary client of 0, or has moved over to k *)
+  (forall c x, ps s !! c = Some x -> c <> host -> c <> k -> untouched s c x \/ moved s k c x) /\
+  (* the promoted peer: window while its flag is set *)
+  (forall x, ps s !! k = Some x -> hosting x = true -> window x).
+
+(* the hand-over has not yet reached the old host: the Promote is in flight, or k has not yet
+   announced its server, or the announcement NewHost(k) is in flight.  Once this is over it is over
+   for good, and the old host handles no promotion message any more. *)
+Definition handover_pending (k : peer) (s : pstate) : Prop :=
+  Promote ∈ chan (down s) host k \/ pget srv_added false s k = true \/ NewHost k ∈ chan (up s) k host.
 
 (* ---------- example runs ---------------------------------------------------------------------------- *)
 Local Open Scope N_scope.
@@ -630,15 +699,76 @@ Example ex_one_client_kicked_runs :
            (1, (true, SConnected, [0], None, CDisconnected, false, true, false))], true).
 Proof. vm_compute. reflexivity. Qed.
 
-(* two clients (S8): peer 2 obeys NewHost(1): RenetClient::disconnect(), transports swapped in one flush *)
+(* two clients after the repair, as the real code runs it ("PEERS 3; promote 1"): peer 2 obeys NewHost(1)
+   with a fresh RenetClient and joins 1; the old host 0 joins 1 too, and verify_client_connected
+   consumes its flag while client 2 is still in its table (no disconnect packet: 15 s time-out) *)
 Definition ex_two_clients : list pevent :=
-  [EPromote 0 1; EDeliverDown 0 1; ESrvUp 1; EDeliverUp 1 0; ENotify 0; ECliConnecting 0;
+  [EPromote 0 1; EDeliverDown 0 1; ESrvUp 1; EDeliverUp 1 0; ELinkDown 1; ENotify 0; ECliConnecting 0;
    EDeliverDown 0 2; ECliConnecting 2;
-   ELinkDown 1; EConnect 0; ENotify 1; ECliDown 1; EVerify 0;
-   ETimeout 0 2; ENotify 0].
+   EConnect 0; ENotify 1; ECliDown 1; EVerify 0; EConnect 2; ENotify 1].
+(* before the time-out: the old host still "hosts" client 2 *)
 Example ex_two_clients_runs :
-  (fun s => (roles s, stableb s, hosts s)) <$> run (session 2) ex_two_clients
+  (fun s => (roles s, enabled s, hosts s)) <$> run (session 2) ex_two_clients
+  = Some ([(0, (true, SConnected, [2], Some 1, CConnected, true, false, false));
+           (1, (true, SConnected, [0; 2], None, CDisconnected, false, true, false));
+           (2, (false, SDisconnected, [], Some 1, CConnected, true, false, true))], [ETimeout 0 2], [0; 1]).
+Proof. vm_compute. reflexivity. Qed.
+(* after it: nothing can happen any more, and TWO peers host *)
+Example ex_two_clients_end :
+  (fun s => (roles s, stableb s, hosts s)) <$> run (session 2) (ex_two_clients ++ [ETimeout 0 2; ENotify 0])
   = Some ([(0, (true, SConnected, [], Some 1, CConnected, true, false, false));
-           (1, (true, SConnected, [0], None, CDisconnected, false, true, false));
-           (2, (false, SDisconnected, [], Some 1, CConnected, false, true, true))], true, [0; 1]).
+           (1, (true, SConnected, [0; 2], None, CDisconnected, false, true, false));
+           (2, (false, SDisconnected, [], Some 1, CConnected, true, false, true))], true, [0; 1]).
+Proof. vm_compute. reflexivity. Qed.
+
+(* the other ending (not what a real network does: needs the old host to notice the departure of
+   client 2 before it has itself connected to the new host): the old host closes its server *)
+Definition ex_two_clients_closed : list pevent :=
+  [EPromote 0 1; EDeliverDown 0 1; ESrvUp 1; EDeliverUp 1 0; ELinkDown 1; ENotify 0; ECliConnecting 0;
+   EDeliverDown 0 2; ECliConnecting 2; EConnect 2; ENotify 1; ECliDown 1; ETimeout 0 2; ENotify 0; ESrvDown 0;
+   EConnect 0; ENotify 1; EVerify 0; EDeliverUp 0 1].
+Example ex_two_clients_closed_runs :
+  (fun s => (roles s, stableb s, hosts s)) <$> run (session 2) ex_two_clients_closed
+  = Some ([(0, (false, SDisconnected, [], Some 1, CConnected, true, false, false));
+           (1, (true, SConnected, [2; 0], None, CDisconnected, false, true, false));
+           (2, (false, SDisconnected, [], Some 1, CConnected, true, false, true))], true, [1]).
+Proof. vm_compute. reflexivity. Qed.
+
+(* a chain of promotions in a two-peer session ("PEERS 2; promote 1; ...; promote 0; ...; promote 1"):
+   the kick kills the RenetClient of the promoted peer each time, the next NewHost replaces it *)
+Definition ex_chain : list pevent :=
+  ex_one_client_kicked ++
+  [EPromote 1 0; EDeliverDown 1 0; ESrvUp 0; EDeliverUp 0 1; ELinkDown 0; ENotify 1; ESrvDown 1; ECliConnecting 1;
+   EConnect 1; ENotify 0; ECliDown 0; EVerify 1; EDeliverUp 1 0].
+Example ex_chain_runs :
+  (fun s => (roles s, stableb s, handed_overb s 0 1)) <$> run (session 1) ex_chain
+  = Some ([(0, (true, SConnected, [1], None, CDisconnected, false, true, false));
+           (1, (false, SDisconnected, [], Some 0, CConnected, true, false, false))], true, true).
+Proof. vm_compute. reflexivity. Qed.
+Definition ex_chain3 : list pevent :=
+  ex_chain ++
+  [EPromote 0 1; EDeliverDown 0 1; ESrvUp 1; EDeliverUp 1 0; ELinkDown 1; ENotify 0; ESrvDown 0; ECliConnecting 0;
+   EConnect 0; ENotify 1; ECliDown 1; EVerify 0; EDeliverUp 0 1].
+Example ex_chain3_runs :
+  (fun s => (roles s, stableb s, handed_overb s 1 0)) <$> run (session 1) ex_chain3
+  = Some ([(0, (false, SDisconnected, [], Some 1, CConnected, true, false, false));
+           (1, (true, SConnected, [0], None, CDisconnected, false, true, false))], true, true).
+Proof. vm_compute. reflexivity. Qed.
+
+(* Where a dead RenetClient can still persist after the repair: a kicked promoted peer that never
+   handles a NewHost.  The application asks for TWO promotions at once (1 and 2): both start a server
+   and announce it; the old host obeys NewHost(1) (kicks 1, turns towards 1), then NewHost(2) (kicks 2,
+   turns towards 2 with yet another fresh RenetClient) and ends as a client of 2.  Peer 1 has been
+   kicked (RenetClient dead), nobody ever joins it, so its flag, its stale client transport and its
+   dead RenetClient stay for ever: a second server hosting nobody, outside the session. *)
+Definition ex_concurrent_promotions : list pevent :=
+  [EPromote 0 1; EPromote 0 2;
+   EDeliverDown 0 1; ESrvUp 1; EDeliverDown 0 2; ESrvUp 2; EDeliverUp 1 0; ENotify 0; ECliConnecting 0;
+   ELinkDown 1; EDeliverUp 2 0; ENotify 0; ESrvDown 0; EConnect 0; EVerify 0; ENotify 2; ECliDown 2;
+   EDeliverUp 0 2].
+Example ex_concurrent_promotions_runs :
+  (fun s => (roles s, stableb s, hosts s)) <$> run (session 2) ex_concurrent_promotions
+  = Some ([(0, (false, SDisconnected, [], Some 2, CConnected, true, false, false));
+           (1, (true, SConnected, [], Some 0, CConnected, false, true, true));
+           (2, (true, SConnected, [0], None, CDisconnected, false, false, false))], true, [1; 2]).
 Proof. vm_compute. reflexivity. Qed.
